@@ -582,6 +582,32 @@ def start_interaction(world, ep_name, ia):
                 else:
                     cancel_hop()
             world.rr_futures[iid] = fut
+        elif kind in ('stream', 'channel') and ia.get('api') == 'awaitable':
+            # through AwaitableRSocket / CollectorSubscriber: the awaited list is replayed as signals
+            from rsocket.awaitable.awaitable_rsocket import AwaitableRSocket
+            limit = ia.get('sub', {}).get('initial_n') or 0x7FFFFFFF
+            cpub = None
+            if kind == 'channel' and ia.get('pub') is not None:
+                cpub = make_publisher(world, ep_name, iid, 'requester', 'c', ia['pub'])
+
+            async def run_awaitable():
+                aw = AwaitableRSocket(ep)
+                rec = lambda cb, **kw: world.rec('sub', ep=ep_name, iid=iid, role='requester', cb=cb, **kw)
+                rec('on_subscribe')
+                try:
+                    if kind == 'stream':
+                        values = await aw.request_stream(payload, limit_rate=limit)
+                    else:
+                        values = await aw.request_channel(payload, publisher=cpub, limit_rate=limit)
+                except Exception as e:
+                    rec('on_error', err='%s: %s' % (type(e).__name__, str(e)[:120]))
+                    return
+                for v in values:
+                    if nb(v.data) or nb(v.metadata):
+                        rec('on_next', data=nb(v.data), metadata=nb(v.metadata), complete=False)
+                rec('on_complete')
+
+            world.loop.create_task(run_awaitable())
         elif kind in ('stream', 'channel'):
             subscript = ia.get('sub', {})
             sub = RecSubscriber(world, ep_name, iid, 'requester', subscript, requester_side=True)
